@@ -1842,3 +1842,11 @@ def latch(chk, prog, files):
                                     "get the value of the first call, so a result depends on the call history" % (attr, ", ".join(dep)), line=s.lineno)
     chk.counts["LATCH.sites"] = chk.counts.get("LATCH.sites", 0) + n
     return n
+
+
+# ------------------------------------------------------------------------------------------------ second module of lints (sa/lints2.py), same registries
+from . import lints2 as _lints2      # noqa: E402  (imported last: it uses the helpers defined above)
+for _name, _fn in _lints2.LINTS.items():
+    ALL[_name] = (lambda fn_: (lambda chk, prog, files: fn_(chk, prog, files)))(_fn)
+OWNERS.update(_lints2.OWNERS)
+FIXTURE = FIXTURE + _lints2.FIXTURE
